@@ -566,7 +566,8 @@ def c02Step (sin sobs : Json) : Option String :=
   -- the configured depth: what the application answered, else the scenario's setting (the code may not have asked)
   let depth : Int := if evs.any (fun e => e.name == "maxDeliveryDepth") then depthOf evs
     else ((sin.getObjVal? "maxDeliveryDepth").toOption.bind fun j => j.getInt?.toOption).getD 0
-  if depth ≤ 0 then none else
+  -- zero or negative: no limit (the generated graphs are then acyclic and shallow)
+  let md : Nat := if depth ≤ 0 then 32 else depth.toNat
   let owner : Option Iri := match (evs.find? fun e => e.name == "actorForOutbox").bind (fun e => (jget e.resp "ok").getStr?.toOption) with
     | some o => some o
     | none => (sin.getObjValAs? String "sender").toOption
@@ -583,7 +584,7 @@ def c02Step (sin sobs : Json) : Option String :=
   | some meDoc =>
   -- the statement of theorem `prepare_det`, evaluated on the ground truth (`none`: the delivery must fail — an actor
   -- document without inbox; that is C11's business)
-  match recipientsSpec facts G storedInbox depth.toNat meDoc A with
+  match recipientsSpec facts G storedInbox md meDoc A with
   | none => none
   | some want =>
   let expect := sortDedup want
@@ -599,7 +600,7 @@ def c02Step (sin sobs : Json) : Option String :=
       match d with
       | 0 => []
       | d + 1 => us ++ allowed d (us.flatMap fun u => match fetchSpec facts G u with | some (_, more) => more | none => [])
-    let ok := allowed depth.toNat rest
+    let ok := allowed md rest
     match derefs.find? fun d => !ok.contains d.1 with
     | some d => some s!"{d.1} was dereferenced although it is not within depth {depth} of an addressed recipient"
     | none => none
